@@ -312,9 +312,23 @@ void do_approx(Ctx<W> &x, const std::string &variant, std::size_t k) {
         for (auto ep = edges(sp); ep.first != ep.second; ++ep.first) std::cout << " " << x.id(probe.verif_edge_spanner_to_g().at(*ep.first));
         std::cout << "\n";
         std::cout << "dropped"; for (auto &e : probe.verif_non_spanner_edges()) std::cout << " " << x.id(e); std::cout << "\n";
+        if (variant == "fvs" || variant == "fvs_tbb" || variant == "iso") {
+            // the feedback vertex set of the spanner, as the FVS builder of the exact phase computes it
+            // (approx_mcb_sva_iso_trees instantiates the FVS-tree exact algorithm as well: parmcb_approx_sva_trees.hpp:49)
+            std::vector<Vertex> fv; parmcb::greedy_fvs(sp, std::back_inserter(fv));
+            std::cout << "fvs"; for (auto v : fv) std::cout << " " << v; std::cout << "\n";
+        }
     }
     W ret = W();
     bool threw = false;
+#ifdef PARMCB_VERIF
+    // the exact phase runs on the internal spanner: its searches / its sorted candidate list are reported by the same hooks
+    std::vector<parmcb::verif::SearchEvent> events;
+    std::mutex events_mu;
+    std::vector<parmcb::verif::CandidateEvent> cand_events;
+    parmcb::verif::search_hook() = [&](const parmcb::verif::SearchEvent &ev) { std::lock_guard<std::mutex> lk(events_mu); events.push_back(ev); };
+    parmcb::verif::candidates_hook() = [&](const std::vector<parmcb::verif::CandidateEvent> &evs) { cand_events = evs; };
+#endif
     try {
         if (variant == "signed") ret = parmcb::approx_mcb_sva_signed(x.g, wm, k, std::back_inserter(cycles));
         else if (variant == "fvs") ret = parmcb::approx_mcb_sva_fvs_trees(x.g, wm, k, std::back_inserter(cycles));
@@ -324,6 +338,25 @@ void do_approx(Ctx<W> &x, const std::string &variant, std::size_t k) {
         else if (variant == "iso_tbb") ret = parmcb::approx_mcb_sva_iso_trees_tbb(x.g, wm, k, std::back_inserter(cycles));
         else { std::cout << "error unknown-variant\n"; return; }
     } catch (const std::runtime_error &e) { threw = true; }
+#ifdef PARMCB_VERIF
+    parmcb::verif::search_hook() = nullptr;
+    parmcb::verif::candidates_hook() = nullptr;
+    if (variant == "signed")
+        for (auto &ev : events) {
+            std::cout << "hs " << ev.phase << " " << (ev.hidden_branch ? 1 : 0) << " " << ev.source << " ";
+            if (ev.use_limit) std::cout << x.scaled((W) ev.limit); else std::cout << "-";
+            std::cout << " " << (ev.found ? 1 : 0) << " ";
+            if (ev.found) std::cout << x.scaled((W) ev.weight); else std::cout << "-";
+            std::cout << " " << (ev.empty_signed_set ? 1 : 0);
+            for (auto h : ev.hidden) std::cout << " " << h;
+            std::cout << "\n";
+        }
+    if (variant == "fvs" || variant == "iso") {
+        for (auto &ev : cand_events)
+            std::cout << "sc " << ev.tree << " " << ev.source << " " << ev.edge << " " << x.scaled((W) ev.weight) << "\n";
+        std::cout << "nsc " << cand_events.size() << "\n";
+    }
+#endif
     // everything below happens AFTER the call has returned: the descriptors must still be usable
     std::size_t foreign = 0;
     long long truew = 0;
